@@ -468,7 +468,7 @@ TEMPLATES = {
         ["real(8), optional :: b", "real*8, optional :: b", "real(kind=8), optional :: b", "REAL ( KIND = 8 ), OPTIONAL :: B"],
         ["end subroutine s", "end subroutine", "endsubroutine s", "END SUBROUTINE S", "end", "EndSubroutine"],
         ["pure function f(x) result(r)", "PURE FUNCTION F(X) RESULT(R)", "pure function f ( x ) result ( r )"],
-        ["real :: x, r", "REAL :: X, R", "real x, r"],
+        ["complex(8) :: x, r", "COMPLEX(8) :: X, R", "complex(kind=8) x, r"],
         ["end function f", "end function", "endfunction f", "END", "End Function F"],
         ["end module m", "end module", "endmodule m", "END MODULE M"],
     ],
@@ -697,7 +697,7 @@ def _facts(tname, f):
         a, b = sub.args
         expect(a.intent == "in" and a.vartype == "integer", "a: integer, intent(in)")
         expect(b.optional and b.vartype == "real" and str(b.kind) == "8", "b: real(8), optional")
-        expect("pure" in [x.lower() for x in fun.attribs] and fun.retvar.vartype == "real", "f: pure, result r real")
+        expect("pure" in [x.lower() for x in fun.attribs] and getattr(fun.retvar, "vartype", None) == "complex", "f: pure, result r complex(8) (not the implicit type)")
     if tname == "types":
         t = f.modules[0].types[0]
         expect(str(t.extends).lower() == "base", "t extends base")
